@@ -3,7 +3,7 @@
 // order, each with its own kind and its own slice of the source.  The only facts taken from the three lines of
 // parse_module that are not verified (lexing, trivia filter) are the two `requires`.
 fn verif_parse<'i>(tokens: Vec<LexToken<'i>>, tokens_raw: Vec<LexToken<'i>>, src: &'i str) -> (r: Parse)
-    requires forall|i: int| 0 <= i < tokens@.len() ==> is_tok(#[trigger] tokens@[i].kind),
+    requires forall|i: int| 0 <= i < tokens@.len() ==> is_tok(#[trigger] tokens@[i].kind), tokens@.len() + 8 <= usize::MAX,
         tokens@.len() == n_real(tokens_raw@, tokens_raw@.len() as int),
     ensures single_root(r.green@), btoks(r.green@) == raw_prefix(tokens_raw@, src@, tokens_raw@.len() as int),
 {
